@@ -577,7 +577,7 @@ def gen_hostile(ctx, n):
         body = b"".join(r.choice(TOKENS) for _ in range(k))
         add((b"{" if r.random() < 0.7 else b"") + (b'"k":' if r.random() < 0.5 else b"") + body, r.choice([b"k", b"a", b"", b"A"]), "soup")
     # deep nesting, unbalanced
-    for d in [1, 2, 7, 40, 200]:
+    for d in [1, 2, 7, 40, 200] + ([3000] if not ctx.quick else []):
         add(b'{"a":' + b"[" * d, b"b", "deep")
         add(b'{"a":' + b'{"a":' * d, b"b", "deep")
         add(b'{"a":' + b"[" * d + b"]" * (d - 1) + b',"b":1}', b"b", "deep")
@@ -621,4 +621,32 @@ def check_json_safety(ctx):
                samples=[cases[0][:200], cases[-1][:200]])
 
 
-SUBCHECKS = {"C15": [check_json_safety], "C17": [check_json_find]}
+DEPTH_SIG = "json-nesting-depth-stack-exhaustion"
+
+
+def check_json_depth(ctx):
+    """skip_value <-> skip_array/skip_object recurse once per nesting level without a limit; on the
+    -O2 build one level costs 32 bytes of stack, so ~262,000 unclosed brackets exhaust an 8 MiB stack.
+    The Coq model has no stack, so this is outside the theorem; the probe runs the real code.
+    It is reported under the signature DEPTH_SIG and is only run once known_findings.json lists that
+    signature (until the coordinator has decided, the unchanged tree must not raise it)."""
+    sub = "json.depth"
+    listed = any(f.get("signature") == DEPTH_SIG for f in vlib.load_known().get("findings", []))
+    if not listed:
+        ctx.notes.append("json.depth: nesting-depth probe not run (signature %s not listed in known_findings.json)" % DEPTH_SIG)
+        return
+    exe, err = vlib.build_c("drv_json_plain", "drv_json.c", ["util/json.c"], asan=False)
+    if not exe:
+        ctx.fail(sub, "build", "", "C driver does not build: " + err)
+        return
+    for depth, unit in [(1000000, b"["), (400000, b'{"a":')]:
+        doc = b'{"a":' + unit * depth
+        rc, out, err = vlib.run_lines(exe, "find %s 62\n" % doc.hex(), timeout=120)
+        ctx.evaluations += 1
+        if rc != 0 or out != ["ok %d" % len(doc)]:
+            ctx.fail(sub, "crash", "find <'{\"a\":' + %r * %d> 62" % (unit, depth),
+                     "driver rc=%d output=%r (stack exhaustion by unbounded recursion)" % (rc, out[:1]),
+                     property_fails=True, signature=DEPTH_SIG)
+
+
+SUBCHECKS = {"C15": [check_json_safety, check_json_depth], "C17": [check_json_find]}
